@@ -3,20 +3,22 @@ import re
 
 from . import absint as A
 from .engine import comparison_of, normalise_le
+from . import lib_c11 as L
 from .lib import PLUMBING, callee_allow, callers, closure_args_of_call, operand_local, status_const_of_ctor
 
 LEVEL = "other"
-TECHNIQUE = "static analysis: edge dominance of every body-data yield by the normalised predicate bytes_read+len <= cap in StreamingBody::into_stream's MIR, accumulator/cap provenance slices, who-constructs and who-consumes censuses, exhaustive interpretation of the limit selection"
+TECHNIQUE = "static analysis: edge dominance of every body-data delivery (try_stream! yield / try_unfold step result) by the normalised predicate bytes_read+len <= cap in StreamingBody::into_stream's MIR, accumulator/cap provenance slices, who-constructs and who-consumes censuses, exhaustive interpretation of the limit selection"
 LEVEL_TEXT = ("Decides on every path of the stream coroutine's MIR (with statically infeasible `Err(..)?` fall-through edges pruned): each send of body data is dominated by the edge on which "
               "`bytes_read + len <= cap` holds (exact boundary: a strict or reversed comparison is reported), `len` is Bytes::len of the very payload that is sent, `bytes_read` starts at 0 and is "
               "advanced by `len` on every accepted iteration, the refusing edge reaches no further data send and always emits a for_bad_request (400) error; every StreamingBody takes its cap from "
               "RequestContext::request_body_max_bytes(), whose MIR is interpreted exhaustively (override, else server default); the override is carried from the endpoint through lookup_route; and "
               "every consumer of a request body in the crate is on a closed, reviewed list (all capped extractors go through StreamingBody). Not decided: hyper's de-framing of wire bytes into frames.")
-LEVEL_NOTE = "Trusts rustc MIR, the extractor, async_stream's try_stream! expansion (send = yield), http_body_util::BodyExt::frame / Frame::into_data, Bytes::len."
+LEVEL_NOTE = ("Trusts rustc MIR, the extractor, async_stream's try_stream! expansion (send = yield) or, when the stream is written as a step function, futures::stream::try_unfold "
+              "(Ok(Some((item, next))) delivers item and continues from next, Ok(None) ends, Err delivers the error and ends), http_body_util::BodyExt::frame / Frame::into_data, Bytes::len.")
 EXPLANATION = ("DOM with predicate normalisation (Gt/Le/Lt/Ge and negations folded to one `<=` fact per edge), reaching-definition census of the accumulator, CHAIN slices for len/cap/payload, "
                "PASS (refusal always sends an error), WHO-CONSTRUCTS StreamingBody, WHO-CALLS body-frame consumers and ExclusiveExtractor impl census against a frozen table, DECIDE (absint) for "
                "request_body_max_bytes.")
-TRUSTED = ["rustc nightly MIR + const evaluation", "mirfacts extractor", "rules/engine.py (dominators, pruning, slices)", "async_stream::try_stream!", "http_body_util::BodyExt::frame", "rules/absint.py"]
+TRUSTED = ["rustc nightly MIR + const evaluation", "mirfacts extractor", "rules/engine.py (dominators, pruning, slices)", "async_stream::try_stream! / futures::stream::try_unfold", "http_body_util::BodyExt::frame", "rules/absint.py"]
 
 # ExclusiveExtractor implementations and how each treats the request body (frozen; one reason per line)
 BODY_EXTRACTORS = {
@@ -37,73 +39,32 @@ FRAME_CONSUMERS = {
 }
 
 
-def _stream_coroutine(ctx, R):
-    top = ctx.need_fn(ctx.ds, R, r"^extractor::body::StreamingBody::into_stream$")
-    cands = [g for g in ctx.ds.descendants(top) if g.raw.get("coroutine") and list(g.calls(r"BodyExt::frame$"))]
-    if len(cands) != 1:
-        ctx.lost(R, "the coroutine inside StreamingBody::into_stream that calls BodyExt::frame (%d found)" % len(cands))
-        raise __import__("rules.core", fromlist=["AnchorLost"]).AnchorLost("into_stream coroutine")
-    return top, cands[0]
-
-
-def _sends(g):
-    """(bb, term, kind) for Sender::send calls: kind 'data' if the sent value is Ok(payload of Frame::into_data), 'err' if built by an HttpError ctor."""
-    out = []
-    for bb, t in g.live_calls(r"yielder::Sender::<T>::send$"):
-        sl = g.slice(t["args"][1])
-        kind = "other"
-        if sl.has_call(r"Frame::<T>::into_data$"):
-            kind = "data"
-        elif ("agg", "std::result::Result", "Err") in sl.atoms:
-            kind = "err"
-        out.append((bb, t, kind, sl))
-    return out
+def _model(ctx, R):
+    """The abstract stream model of StreamingBody::into_stream (lib_c11): the generator / step coroutine that reads the
+    body frames, its step events (data item, error item, end) and its cap / running-count vocabulary.  Fails closed."""
+    from .core import AnchorLost
+    try:
+        return L.stream_model(ctx.ds)
+    except L.ModelLost as e:
+        ctx.lost(R, str(e))
+        raise AnchorLost(str(e))
 
 
 def r1_cap_before_delivery(ctx):
     R = ctx.rule("C11.R1", "every send of body data is dominated by the edge on which bytes_read + len <= cap holds (exact boundary), with len = Bytes::len of the sent payload, "
                  "cap = self.cap, and bytes_read an accumulator starting at 0 and advanced by len on every accepted iteration", floor=6)
-    top, g = _stream_coroutine(ctx, R)
-    sends = _sends(g)
-    data = [(bb, t, sl) for bb, t, k, sl in sends if k == "data"]
-    ctx.check(R, "data-send-sites", len(data) >= 1, "sends of body data in the stream coroutine: %d" % len(data), g)
+    m = _model(ctx, R)
+    top, g = m.top, m.g
+    data = m.data
+    ctx.check(R, "data-send-sites", len(data) >= 1, "deliveries of body data (%s) in the stream coroutine [%s form]: %d" % (m.item_word, m.form, len(data)), g)
     if not data:
         return
-    # the cap upvar: field of the coroutine state that the parent filled from self.cap
-    cap_fields = set()
-    for bb, i, st in top.stmts():
-        if st["rv"]["rv"] == "agg" and st["rv"].get("def") == g.raw["id"]:
-            for idx, op in enumerate(st["rv"]["ops"]):
-                s = top.slice(op)
-                if any(pf[0] == 1 and any(e.endswith(":cap") for e in pf[1]) for pf in s.param_fields()) and not callee_allow(s, PLUMBING):
-                    cap_fields.add(idx)
-    ctx.check(R, "cap-upvar-is-self.cap", len(cap_fields) == 1, "coroutine upvar(s) filled from self.cap: %s" % sorted(cap_fields), top)
-
-    def is_cap(op):
-        s = g.slice(op)
-        pf = s.param_fields()
-        return bool(pf) and all(p[0] == 1 and any(e.startswith("f%d:" % c) for c in cap_fields for e in p[1]) for p in pf) and not callee_allow(s, PLUMBING) \
-            and not any(a[0] == "binop" for a in s.atoms)
-
-    for sbb, st, ssl in data:
-        into = ssl.calls(r"Frame::<T>::into_data$")
-        into_bbs = set(b for _, b, _ in into)
-        guards = []
-        for wbb, wt in g.switches():
-            cmp = comparison_of(g, wbb)
-            if not cmp:
-                continue
-            for rel, x, y, edge in normalise_le(cmp):
-                if rel not in ("le", "lt"):
-                    continue
-                if not is_cap(y):
-                    continue
-                xs = g.slice(x)
-                if not any(a[0] == "binop" and a[1] in ("Add", "AddWithOverflow", "AddUnchecked") for a in xs.atoms) and not xs.has_call(r"checked_add|saturating_add|wrapping_add"):
-                    continue
-                lens = xs.calls(r"bytes::Bytes::len$|bytes::Buf::remaining$")
-                len_ok = bool(lens) and all(set(b for _, b, _ in g.slice(lt["args"][0]).calls(r"Frame::<T>::into_data$")) == into_bbs for _, _, lt in lens)
-                guards.append({"bb": wbb, "rel": rel, "edge": edge, "target": cmp[edge], "len_ok": len_ok, "sum": xs, "lens": lens})
+    cap_ok, cap_detail = m.cap_source()
+    ctx.check(R, "cap-upvar-is-self.cap", cap_ok, cap_detail, top)
+    for ev in data:
+        sbb, ssl = ev.bb, ev.sl
+        into_bbs = set(b for _, b, _ in ssl.calls(L.INTO_DATA))
+        guards = m.cap_guards(into_bbs)
         key = "data-send"
         if not guards:
             ctx.check(R, key + ":guarded-by-cap", False, "no comparison of (bytes_read + len) against self.cap found", (g, sbb))
@@ -121,55 +82,19 @@ def r1_cap_before_delivery(ctx):
             continue
         gd = (exact or strict)[0]
         ctx.check(R, key + ":len-is-length-of-sent-payload", gd["len_ok"], "the compared `len` is Bytes::len of the same Frame::into_data payload that is sent: %s" % gd["len_ok"], (g, sbb))
-        # accumulator: the non-len operand of the sum
-        acc_locals = set()
-        len_dests = set(lt["dest"]["l"] for _, _, lt in gd["lens"])
-        for p in gd["sum"].places:
-            pl = __import__("json").loads(p)
-            if pl["p"]:
-                continue
-            ds = g.defs().get(pl["l"], [])
-            if any(k == "assign" and n["rv"]["rv"] == "use" and n["rv"]["op"].get("k") == "const" for _, k, n in ds) and len(ds) >= 2:
-                acc_locals.add(pl["l"])
-        ok_acc = False
-        detail = "no accumulator local (initialised from a constant and re-assigned) found in the compared sum"
-        for acc in acc_locals:
-            ds = g.defs()[acc]
-            inits = [(b, n) for b, k, n in ds if k == "assign" and n["rv"]["rv"] == "use" and n["rv"]["op"].get("k") == "const"]
-            upds = [(b, n) for b, k, n in ds if not (k == "assign" and n["rv"]["rv"] == "use" and n["rv"]["op"].get("k") == "const")]
-            init_zero = len(inits) == 1 and inits[0][1]["rv"]["op"].get("val", {}).get("int") == 0 and inits[0][0] not in g.loop_blocks()
-            upd_ok = True
-            upd_blocks = []
-            for b, n in upds:
-                if "rv" not in n:
-                    upd_ok = False
-                    continue
-                us = g.slice(n["rv"]["op"]) if n["rv"]["rv"] == "use" else g.slice({"k": "copy", "pl": n["pl"]})
-                has_add = any(a[0] == "binop" and a[1] in ("Add", "AddWithOverflow") for a in us.atoms)
-                same_len = bool(set(t2["dest"]["l"] for _, _, t2 in us.calls(r"bytes::Bytes::len$|bytes::Buf::remaining$")) & len_dests)
-                if not (has_add and same_len and us.touches_local(acc)):
-                    upd_ok = False
-                upd_blocks.append(b)
-            # every accepted iteration passes an update before the next frame is requested
-            frame_bbs = [b for b, _ in g.live_calls(r"BodyExt::frame$")]
-            passes = bool(upd_blocks) and not any(fb in g.reachable(gd["target"], avoid=upd_blocks) for fb in frame_bbs)
-            detail = "accumulator _%d: initialised to 0 outside the loop=%s, %d update(s) all `+= len` of this payload=%s, every accepted iteration passes an update before the next frame=%s" % (
-                acc, init_zero, len(upds), upd_ok, passes)
-            if init_zero and upd_ok and passes and upds:
-                ok_acc = True
-                break
+        ok_acc, detail = m.accumulates(gd, ev)
         ctx.check(R, key + ":bytes_read-accumulates", ok_acc, detail, (g, sbb))
         # payload sent unmodified
         badp = callee_allow(ssl, PLUMBING + [r"Frame::<T>::into_data$", r"BodyExt::frame$", r"Result::<T, E>::map_err$"])
-        ctx.check(R, key + ":payload-unmodified", not badp, "callees between Frame::into_data and the send: %s" % ([b[0] for b in badp] or "none"), (g, sbb))
+        ctx.check(R, key + ":payload-unmodified", not badp and bool(into_bbs), "callees between Frame::into_data and the send: %s" % ([b[0] for b in badp] or "none"), (g, sbb))
 
 
 def r2_refusal_final(ctx):
     R = ctx.rule("C11.R2", "the refusing edge reaches no further data send and every path from it to the end of the stream sends an error built by for_bad_request (400)", floor=3)
-    top, g = _stream_coroutine(ctx, R)
-    sends = _sends(g)
-    data = [bb for bb, t, k, sl in sends if k == "data"]
-    errs = [(bb, sl) for bb, t, k, sl in sends if k == "err"]
+    m = _model(ctx, R)
+    top, g = m.top, m.g
+    data = [e.bb for e in m.data]
+    errs = [(e.bb, e.sl) for e in m.errs]
     n = 0
     for wbb, wt in g.switches():
         cmp = comparison_of(g, wbb)
@@ -187,7 +112,6 @@ def r2_refusal_final(ctx):
             reach = g.reachable(rej)
             ctx.check(R, "refusal-delivers-nothing", not any(d in reach for d in data), "data sends reachable from the refusing edge: %s" % [d for d in data if d in reach], (g, wbb))
             err_blocks = [bb for bb, sl in errs]
-            rets = g.returns()
             ok = bool(err_blocks) and g.must_pass(err_blocks, start=rej)
             ctx.check(R, "refusal-always-errors", ok, "every path from the refusing edge to the coroutine's return passes an error send: %s" % ok, (g, wbb))
             # the errors on that path are 400s
@@ -375,22 +299,12 @@ def r6_only_counted_bytes_refuse(ctx):
     only be caused by bytes actually counted, by a *sound* lower bound on them, or by a transport error."""
     R = ctx.rule("C11.R6", "every error emitted by the body stream is either the propagation of a frame / drain failure, or is dominated by the refusing edge of a comparison against "
                  "self.cap whose other side is the counted total (bytes_read + len) or a sound lower bound of the remaining length (SizeHint::lower / exact)", floor=3)
-    top, g = _stream_coroutine(ctx, R)
-    sends = _sends(g)
-    errs = [(bb, t, sl) for bb, t, k, sl in sends if k == "err"]
-    ctx.check(R, "error-sends", len(errs) >= 3, "error sends in the stream coroutine: %d" % len(errs), g)
+    m = _model(ctx, R)
+    top, g = m.top, m.g
+    errs = [(e.bb, e.node, e.sl) for e in m.errs]
+    ctx.check(R, "error-sends", len(errs) >= 3, "error items in the stream coroutine [%s form]: %d" % (m.form, len(errs)), g)
     # every comparison against cap in the coroutine
-    cap_fields = set()
-    for bb, i, st in top.stmts():
-        if st["rv"]["rv"] == "agg" and st["rv"].get("def") == g.raw["id"]:
-            for idx, op in enumerate(st["rv"]["ops"]):
-                s0 = top.slice(op)
-                if any(pf[0] == 1 and any(e.endswith(":cap") for e in pf[1]) for pf in s0.param_fields()):
-                    cap_fields.add(idx)
-
-    def mentions_cap(op):
-        s1 = g.slice(op)
-        return any(p[0] == 1 and any(e.startswith("f%d:" % c) for c in cap_fields for e in p[1]) for p in s1.param_fields())
+    mentions_cap = m.mentions_cap
     guards = []
     for wbb, wt in g.switches():
         cmp = comparison_of(g, wbb)
@@ -430,10 +344,10 @@ def r7_frame_errors_are_errors(ctx):
     from .lib import result_split, http_error_ctors_on_error_path
     R = ctx.rule("C11.R7", "a failed body frame (truncated or corrupt framing) never ends the body stream silently: its Err case always emits an error item built by "
                  "for_bad_request before the stream can end, and delivers no further data", floor=3)
-    top, g = _stream_coroutine(ctx, R)
-    sends = _sends(g)
-    data = [bb for bb, t, k, sl in sends if k == "data"]
-    err_blocks = [bb for bb, t, k, sl in sends if k == "err"]
+    m = _model(ctx, R)
+    top, g = m.top, m.g
+    data = [e.bb for e in m.data]
+    err_blocks = [e.bb for e in m.errs]
     frame_results = [l for l, ty in enumerate(g.raw["locals"]) if re.match(r"^std::result::Result<hyper::body::Frame<", ty)]
     splits = []
     seen_sw = set()
@@ -474,9 +388,37 @@ SELFTEST = [
      "why": "per-endpoint override never reaches the request context"},
     {"name": "commuted-comparison", "kind": "benign", "edits": [("dropshot/src/extractor/body.rs", "if bytes_read + len > self.cap {", "if self.cap < bytes_read + len {")], "why": "same predicate"},
     {"name": "negated-le", "kind": "benign", "edits": [("dropshot/src/extractor/body.rs", "if bytes_read + len > self.cap {", "if !(bytes_read + len <= self.cap) {")], "why": "same predicate"},
+    # the same rules over the other spelling of the stream: futures::stream::try_unfold with state (self, bytes_read) (benign/C11-R5)
+    {"name": "unfold-no-accumulate", "kind": "mutant", "patch": "benign/C11-R5/patch.diff", "edits": [("dropshot/src/extractor/body.rs", "(this, bytes_read + len)", "(this, bytes_read)")], "expect": ["C11.R1"],
+     "why": "try_unfold form: the count carried to the next step is not advanced; a chunked body of any size passes"},
+    {"name": "unfold-deliver-before-check", "kind": "mutant", "patch": "benign/C11-R5/patch.diff",
+     "edits": [("dropshot/src/extractor/body.rs", "                    if this.would_exceed_cap(bytes_read, len) {",
+                "                    if bytes_read == 0 { return Ok(Some((buf, (this, bytes_read + len)))); }\n                    if this.would_exceed_cap(bytes_read, len) {")], "expect": ["C11.R1"],
+     "why": "try_unfold form: the first chunk is delivered without being compared with the cap"},
+    {"name": "unfold-frame-error-ends-stream", "kind": "mutant", "patch": "benign/C11-R5/patch.diff",
+     "edits": [("dropshot/src/extractor/body.rs", "let frame = frame_res.map_err(streaming_error)?;", "let Ok(frame) = frame_res else { return Ok(None) };")], "expect": ["C11.R7"],
+     "why": "try_unfold form: a failed frame ends the stream as if the body were complete"},
+    {"name": "unfold-refusal-ends-stream", "kind": "mutant", "patch": "benign/C11-R5/patch.diff",
+     "edits": [("dropshot/src/extractor/body.rs", "                        return Err(this.cap_exceeded_error());\n", "                        return Ok(None);\n")], "expect": ["C11.R2"],
+     "why": "try_unfold form: an oversize body is truncated silently instead of refused with 400"},
+    {"name": "unfold-cap-rewritten", "kind": "mutant", "patch": "benign/C11-R5/patch.diff",
+     "edits": [("dropshot/src/extractor/body.rs", "                    let len = buf.len();\n", "                    let len = buf.len();\n                    this.cap = usize::MAX;\n")], "expect": ["C11.R1"],
+     "why": "try_unfold form: the cap held in the carried state is overwritten inside a step"},
+    {"name": "unfold-state-destructured-in-body", "kind": "benign", "patch": "benign/C11-R5/patch.diff",
+     "edits": [("dropshot/src/extractor/body.rs", "|(mut this, bytes_read)| async move {", "|state| async move {\n                let (mut this, bytes_read) = state;")],
+     "why": "try_unfold form: the step coroutine captures the whole state and destructures it itself"},
+    {"name": "unfold-named-total", "kind": "benign", "patch": "benign/C11-R5/patch.diff",
+     "edits": [("dropshot/src/extractor/body.rs", "                    if this.would_exceed_cap(bytes_read, len) {", "                    let total = bytes_read + len;\n                    if total > this.cap {"),
+               ("dropshot/src/extractor/body.rs", "return Ok(Some((buf, (this, bytes_read + len))));", "let next = (this, total);\n                    return Ok(Some((buf, next)));")],
+     "why": "try_unfold form: the compared sum is let-bound and reused as the carried count; the next state is let-bound"},
     {"name": "renamed-locals", "kind": "benign", "edits": [("dropshot/src/extractor/body.rs", "                let len = buf.len();\n\n                if bytes_read + len > self.cap {", "                let n = buf.len();\n                let len = n;\n\n                if bytes_read + len > self.cap {")], "why": "extra copy of len"},
 ]
 
 LEVEL_TEXT += ' Also (R6): a refusal can only be caused by bytes actually counted, by a sound lower bound of the remaining length, or by a transport error.'
 
 LEVEL_TEXT += " Also (R7): a failed body frame (truncated / corrupt framing) always yields a for_bad_request error item and no further data; the stream never ends silently on it."
+
+LEVEL_TEXT += (" The stream rules (R1, R2, R6, R7) are stated over an abstract stream step (rules/lib_c11.py: data item / error item / end of stream, running count, cap) that two spellings instantiate: "
+               "the try_stream! generator (item = yield, running count = a local re-assigned in the loop) and a futures::stream::try_unfold step function (item = the step result Ok(Some((item, next))), "
+               "end = Ok(None), error = Err / `?`; the running count and `self` are components of the state tuple: the count is 0 in the initial state, never written inside a step and carried on as "
+               "count + len of the delivered payload, `self` is carried on unchanged and its cap never written or mutably borrowed). Any other mechanism fails closed.")
